@@ -52,10 +52,9 @@ func (db *Builder) Add(b []byte) error {
 		return errors.New("byte slices must be added in lexicographical order")
 	}
 	//A nil lastWord means that no word has been added yet, so the empty word must not be recorded as nil.
-	lastWord := b
-	if lastWord == nil {
-		lastWord = []byte{}
-	}
+	//The caller is free to reuse b after Add returns, so we keep a copy and not b itself.
+	lastWord := make([]byte, len(b))
+	copy(lastWord, b)
 	db.lastWord = lastWord
 	_, suffix, lastNode := db.d.commonPrefix(b)
 	if len(lastNode.links) != 0 {
